@@ -2,7 +2,7 @@
    Directives in force: those of ExtrOcamlBasic only (bool, option, unit, list, prod, sumbool,
    sumor -> OCaml types); Z, positive, N, nat stay inductive; no Extract Constant. *)
 Require Extraction. Require ExtrOcamlBasic.
-Require Import PyBase GenText Text TextSpec GenTape Tape K7 GenBasic Basic Mo5Basic GenDisk Disk ThomsonDos.
+Require Import PyBase GenText Text TextSpec GenTape Tape K7 GenBasic Basic Mo5Basic GenDisk Disk ThomsonDos CliTypes GenCli Cli.
 Extraction Language OCaml.
 Extraction "model.ml" nl_run prettier_run pretty_spec nl_spec chomp
   nl_default_start nl_default_increment nl_default_width
@@ -10,4 +10,5 @@ Extraction "model.ml" nl_run prettier_run pretty_spec nl_spec chomp
   tokenize_program lst_to_ascii ascii_to_lst detok upper_outside_strings ref_encode ref_source line_number line_text
   readlines_file readlines_stdin program_records
   disk_create disk_add disk_list disk_extract load_image save_image set_payload
-  sides_of_raw side_geometry fsck_read fsck_strict dos_files fat count_status st_free st_reserved sd_slot_ok doc_disk_kind cat_entries e_live.
+  sides_of_raw side_geometry fsck_read fsck_strict dos_files fat count_status st_free st_reserved sd_slot_ok doc_disk_kind cat_entries e_live
+  tar_main disk_main cli_status cli_effects parse tar_cli disk_cli nl_cli prettier_cli lst2bas_cli bas2lst_cli.
